@@ -23,6 +23,9 @@ for ratio_q, ratio_p in [(10000, 100000), (50000, 100000), (100000, 100000), (15
     CGROUPS += [("v2", ratio_q, ratio_p), ("v1", ratio_q, ratio_p)]
 CGROUPS += [("both", 300000, 100000)]          # v2 file wins over v1 files
 OVERRIDE = [None, "0", "-1", "1", "3", "100"]
+# malformed values of LOKY_MAX_CPU_COUNT and unreadable cgroup files: enumerated separately
+# (the property does not define them; the check only demands that cpu_count() does not
+# return less than 1 or more than the OS count silently)
 PHYS = [("lscpu", 2), ("lscpu", 6), ("lscpu-fails-cpuinfo", 3), ("zero", 0), ("raises", 0)]
 ONLY = [False, True]
 
